@@ -291,8 +291,11 @@ func RemoveFlagElement(ctx context.Context, scope *ReferenceScope, expr parser.R
 		return err
 	}
 
-	scope.Tx.operationMutex.Lock()
-	defer scope.Tx.operationMutex.Unlock()
+	_, unlock, err := scope.Tx.lockOperation(ctx, expr)
+	if err != nil {
+		return err
+	}
+	defer unlock()
 
 	switch strings.ToUpper(expr.Flag.Name) {
 	case option.DatetimeFormatFlag:
@@ -1056,8 +1059,11 @@ func Pwd(expr parser.Pwd) (string, error) {
 }
 
 func Reload(ctx context.Context, tx *Transaction, expr parser.Reload) error {
-	tx.operationMutex.Lock()
-	defer tx.operationMutex.Unlock()
+	_, unlock, err := tx.lockOperation(ctx, expr)
+	if err != nil {
+		return err
+	}
+	defer unlock()
 
 	switch strings.ToUpper(expr.Type.Literal) {
 	case ReloadConfig:
